@@ -93,6 +93,13 @@ def correspondence(ctx):
     V.evaluate_case_file(ctx, tout, ['model.CertConstraint'], corr=corr, max_samples=0)
     if any(k == 'time/dropped-slow-machine' for k in corr.distribution):
         ctx.notes.append('time history dropped: phase 1 never finished within 2 s on this machine')
+    # (e) certificate functionaries of a sublayout's step, end to end through InTotoVerify: only the verified layout's own
+    #     roots and intermediates plus the caller's intermediates may build the chain
+    sout = os.path.join(ctx.dir, 'sub.jsonl')
+    rc, o = ctx.run([binp, 'sub', sout], 300)
+    if rc != 0:
+        raise V.BuildError('c07 sublayout class failed: ' + o[-2000:])
+    V.evaluate_case_file(ctx, sout, ['model.CertConstraint'], corr=corr, max_samples=0)
     # coverage-guided differential fuzzing against the Go transcription of C07_attr_spec / C07_constraint_spec: the fuzzer
     # sees the library's coverage, so a count comparison, a cache or a redaction is a branch it tries to reach
     # (failing-input search only, never the proof)
@@ -123,6 +130,12 @@ def correspondence(ctx):
                  "URI-focused (sound chain, other attributes matching) with URI constraints exact / permuted / wildcard / near miss "
                  "(password replaced by xxxxx, other password, password added or dropped, userinfo dropped, slash, port, host case, scheme "
                  "case, hex case, decoded escape, query, fragment), ground truth = string equality with (*url.URL).String(); "
+                 "class sublayout-intermediates (end to end through InTotoVerify, files on disk): a signed super layout delegating a step "
+                 "to a signed sublayout whose step is authorised by a certificate constraint (root list '*' and the root's id), leaf chaining "
+                 "R -> I -> leaf / R -> I1 -> I2 -> leaf / R -> leaf, with the intermediates listed in the super layout only / in the sublayout / "
+                 "handed in by the caller / nowhere / split, the root listed in the super layout only, and the same certificate signing a step of "
+                 "the super layout whose intermediate is listed in the sublayout only; ground truth: the chain may only use the verified "
+                 "layout's own roots and intermediates plus the caller's intermediates; "
                  "one time history per run: a first full InTotoVerify, then a certificate valid for 3 more seconds and one valid from "
                  "3 s in the future, each through Step.CheckCertConstraints, VerifyCertificateTrust and a full InTotoVerify before and after "
                  "a sleep across both instants (discarded and repeated when the machine is too slow); "
@@ -171,6 +184,19 @@ def replay(ctx, case):
             k = json.loads(l)
             print('  %-45s %-24s at T%+s  impl=%s  demanded=%s%s' % (k['klass'], k['input'].get('entry', ''), k['input'].get('at', ''), k['impl'], k.get('oracle'),
                                                                   '' if k['impl'] == k.get('oracle') else '   <-- differs'))
+        return
+    if ((case.get('case', case) or {}).get('klass') or '').startswith('sublayout-intermediates/'):
+        c = case.get('case', case)
+        print('recorded: %s\n  impl=%s  demanded=%s' % (json.dumps(c.get('input')), c.get('impl'), c.get('oracle')))
+        print('re-running the class (fresh certificates; super layout + sublayout on disk, full InTotoVerify):')
+        sout = os.path.join(ctx.dir, 'replay_sub.jsonl')
+        rc, o = ctx.run([binp, 'sub', sout], 300)
+        for l in open(sout):
+            k = json.loads(l)
+            mark = '' if k['impl'] == k.get('oracle') else '   <-- differs'
+            if k['klass'] == c.get('klass') and k['input'].get('roots_form') == (c.get('input') or {}).get('roots_form'):
+                mark += '   (the replayed case: %s)' % k['input'].get('why')
+            print('  %-62s roots=%-2s impl=%-4s demanded=%s%s' % (k['klass'], k['input'].get('roots_form'), k['impl'], k.get('oracle'), mark))
         return
     p = os.path.join(ctx.dir, 'replay_case.json')
     json.dump(case.get('case', case), open(p, 'w'))
